@@ -1,7 +1,7 @@
 SPECIFICATION Spec
 CONSTANTS
   Keys = {"A"}
-  Ctrs = {1, 6, 22}
+  Ctrs = {1, 22}
   Levels = 3
   LeafBits = 2
   MaxNspk = 2
